@@ -1,4 +1,5 @@
 import RpycModel.Brine.Closed
+import RpycModel.Brine.Fuel
 /-
 C04 — the value serializer is lossless and exact about what it accepts.
 Only property theorems and their non-vacuity examples live here (namespace Rpyc.Props.C04);
@@ -50,6 +51,11 @@ theorem load_safe (bs : Bytes) : (∃ e, load bs = .error e) ∨ (∃ v, load bs
   cases h : dec (2 * bs.length + 2) bs with
   | error e => exact Or.inl ⟨e, rfl⟩
   | ok p => exact Or.inr ⟨p.1, rfl, dec_dumpable _ _ p.1 p.2 (by rw [h])⟩
+
+/-- the model's `load` never fails for lack of fuel, whatever the bytes: its failures are exactly the
+transcribed failures of `_load` (so `load_safe`'s "raises" is never an artefact of the model) -/
+theorem load_fuel_adequate (bs : Bytes) : load bs ≠ .error .recursionError :=
+  load_never_out_of_fuel bs
 
 /-- the loader's registry has exactly the tags the model decodes (generated; a new or re-keyed
 `_load_*` entry breaks this) -/
